@@ -10,3 +10,111 @@ def selftest_refmodel_catches_seeded_errors():
     assert R.judge(('double', 0.0, 10.0, None, None), 10.5, 10.0) is not None
     assert R.judge(('double', 0.0, 10.0, 0.5, None), 10.4, 10.0) is None
     return 'reference model rejects 4 seeded wrong results and accepts 2 right ones'
+
+
+class _Counter:
+    def __init__(self, locked):
+        from vf.engines import schedx
+        self.x = 0
+        self.lock = schedx.Lock() if locked else None
+
+    def incr(self):
+        if self.lock:
+            with self.lock:
+                tmp = self.x
+                self.x = tmp + 1
+        else:
+            tmp = self.x
+            self.x = tmp + 1
+
+
+def _toy(locked, bound, trace):
+    from vf.engines import schedx
+    outcomes = set()
+    traces = {}
+
+    def execute(prefix):
+        s = schedx.Scheduler(prefix)
+        c = []
+
+        def body():
+            cnt = _Counter(locked)
+            c.append(cnt)
+            s.begin()
+            ts = [schedx.Thread(target=cnt.incr, name=f'w{i}') for i in range(2)]
+            for t in ts:
+                t.start()
+            for t in ts:
+                t.join()
+        x = s.run(body)
+        outcomes.add(c[0].x)
+        traces[tuple(prefix)] = list(x.trace)
+        assert x.deadlock is None, x.deadlock
+        return x
+    if trace:
+        schedx.trace_lines([_Counter.incr])
+    try:
+        n, capped = schedx.explore(execute, bound)
+        # determinism: the root schedule replayed gives the identical trace
+        t1 = traces[()]
+        execute([])
+        assert traces[()] == t1, 'replay of the same schedule differs'
+    finally:
+        schedx.untrace_all()
+    return n, outcomes
+
+
+def selftest_schedx_lost_update():
+    n0, out0 = _toy(False, 0, True)
+    assert out0 == {2}, out0                       # no preemption: no lost update
+    n1, out1 = _toy(False, 1, True)
+    assert out1 == {1, 2}, out1                    # one preemption between load and store loses an update
+    n2, out2 = _toy(True, 2, True)
+    assert out2 == {2}, out2                       # with the lock, no schedule with <= 2 preemptions loses one
+    return f'unlocked: bound0 {n0} schedules {sorted(out0)}, bound1 {n1} schedules {sorted(out1)}; locked: bound2 {n2} schedules {sorted(out2)}'
+
+
+def selftest_schedx_deadlock_and_timeout():
+    from vf.engines import schedx
+    found = []
+
+    def execute(prefix):
+        s = schedx.Scheduler(prefix)
+        a, b = schedx.Lock(), schedx.Lock()
+
+        def t1():
+            with a:
+                with b:
+                    pass
+
+        def t2():
+            with b:
+                with a:
+                    pass
+
+        def body():
+            s.begin()
+            ts = [schedx.Thread(target=t1, name='t1'), schedx.Thread(target=t2, name='t2')]
+            for t in ts:
+                t.start()
+            for t in ts:
+                t.join()
+        x = s.run(body)
+        if x.deadlock:
+            found.append(list(prefix))
+        return x
+    n, _ = schedx.explore(execute, 1)
+    assert found, 'lock-order inversion deadlock not found with 1 preemption'
+    # timed wait in virtual time
+    s = schedx.Scheduler()
+    ev = schedx.Event()
+    res = []
+
+    def body():
+        s.begin()
+        t0 = schedx.vtime()
+        res.append(ev.wait(2.5))
+        res.append(schedx.vtime() - t0)
+    s.run(body)
+    assert res == [False, 2.5], res
+    return f'deadlock found in {len(found)} of {n} schedules; timed wait took exactly 2.5 virtual seconds'
